@@ -134,23 +134,32 @@ class Parser:
         """returns list of items: ('impl', header_str, trait, type, [fns]) / ('fn', ...) / ('macro', name, [items], invocations)
         unknown items are skipped."""
         items = []
+        item_pub = False
+        first = True
         while True:
+            if not first:
+                pass
             tok = self.peek()
             if tok[0] == 'eof':
                 break
             if end is not None and tok[1] == end:
                 break
             v = tok[1]
+            if v != 'pub' and self.t[self.i - 1][1] != 'pub' if self.i > 0 else True:
+                item_pub = False
             if v == '#':
                 self.skip_attr()
             elif v == 'pub':
                 self.next()
+                item_pub = True
                 if self.at('('):
                     self.skip_balanced('(', ')')
+                    item_pub = False
+                continue
             elif v == 'impl':
                 items.append(self.parse_impl())
             elif v == 'fn':
-                items.append(self.parse_fn())
+                items.append(self.parse_fn() + (item_pub,))
             elif v == 'macro_rules':
                 items.append(self.parse_macro_rules())
             elif v == 'struct':
@@ -280,16 +289,21 @@ class Parser:
         self.expect('{')
         fns = []
         assoc = {}
+        is_pub = False
         while not self.at('}'):
             v = self.peek()[1]
             if v == '#':
                 self.skip_attr()
             elif v == 'pub':
                 self.next()
+                is_pub = True
                 if self.at('('):
                     self.skip_balanced('(', ')')
+                    is_pub = False
             elif v == 'fn':
-                fns.append(self.parse_fn())
+                f = self.parse_fn()
+                fns.append(f + (is_pub,))
+                is_pub = False
             elif v == 'type' and self.peek(1)[0] == 'id' and self.peek(2)[1] == '=':
                 self.next()
                 an = self.next()[1]
